@@ -6,6 +6,7 @@ import ast
 from typing import Any, Dict, List, Optional, Set, Tuple
 
 from ..core import fde
+from ..core.classworld import ClassWorld
 from ..core.fde import FELL, IndexOutOfRange, Lin, Obj, Raised, Tag, Undecided
 from ..core.findings import Report
 from ..core.loader import AnalysisError, Repo, norm, short
@@ -72,11 +73,9 @@ def check_z3_translator(repo: Repo, rep: Report) -> None:
     if unknown:
         raise AnalysisError(f"construction site uses an Op member that the enum lacks: {unknown}")
 
-    ev = fde.Evaluator(z3_namespace())
-    genv: Dict[str, Any] = {"Op": Tag("Op"), "z3": Tag("z3"), "TypeError": lambda *a: Tag("TypeError")}
-    for q, f in mod.funcs.items():
-        if "." not in q:
-            genv[q] = fde.FunctionValue(f, ev, genv)
+    # module-level tables of the translator (e.g. an operator dispatch dict) are evaluated as at import time
+    cw = ClassWorld([mod], extra_funcs=z3_namespace(), pre_env={"Op": Tag("Op"), "z3": Tag("z3")})
+    ev, genv = cw.ev, cw.genv
     params = [a.arg for a in fn.args.args]
     if len(params) < 1:
         raise AnalysisError("_convert_expr lost its parameters")
